@@ -30,6 +30,20 @@ T = {
  "C18b": ("C18", "a load balancer listing one defined and one undefined member: passes verify, the selection unwraps a missing connector", "C18 (oracle: process died / accepted-config-hangs in the member-graph cases)"),
  "C19a": ("C19", "a QUIC connector not named `quic` whose shared connection was closed by the upstream in an orderly way: the dead connection stays cached", "C19 (oracle: no-recovery after an orderly close of the in-process QUIC upstream)"),
  "C19b": ("C19", "an upstream RST mid-session with a passive client: the reset is treated as EOF, the tunnel is not torn down (same change as C04b)", "C19 (oracle: tunnel across outage not ended with an error) and C04"),
+ "C03a": ("C03", "a SOCKS4 upstream hop and an IPv6 destination inside ::/96 (`::a.b.c.d`, not ::ffff:a.b.c.d): it is sent as the IPv4 address a.b.c.d instead of being refused", "C03 (oracle: destination reinterpreted by the SOCKS4 encoder; correspondence with the encoder model)"),
+ "C03b": ("C03", "a SOCKS5 upstream hop and a destination host name of exactly 256 bytes: the length byte wraps to 0 and the name bytes follow as protocol data", "C03 (oracle: over-long name accepted / decoded destination differs; correspondence)"),
+ "C05a": ("C05", "an RPFM frame (inline stream or reassembled QUIC datagrams) whose address attribute is 1-2 bytes shorter than its length byte claims: get_u16 / copy_to_slice past the end panics (abort in the shipped binary)", "C05 (oracle: decoder panic in the (tag,len) attribute grid; correspondence of the outcome class)"),
+ "C05b": ("C05", "an http listener with tls: and one client that connects and never completes the TLS handshake: the handshake is awaited inside the accept loop, nobody else is accepted by that listener", "C05 (proof obligation: regenerated accept-loop table fails accept_loops_have_no_peer_wait; oracle: stall matrix, stages https-tls-*)"),
+ "C09a": ("C09", "two or more different prefix operators in a row (`!~x`, `-~x`, `!-x`): the chain is folded left to right, the first written operator ends up innermost", "C09 (proof obligation: regenerated precedence ladder; oracle: tree of the text differs from the tree of its fully parenthesised form)"),
+ "C09b": ("C09", "a word operator (and / or / xor) directly followed by a comment, a quote, a digit or an opening bracket: the operator is no longer recognised", "C09 (proof obligation: ladder; oracle: filler between tokens changes the result / documented spelling rejected)"),
+ "C11a": ("C11", "a multi-fragment frame that never completes and receives a second fragment before the timeout: its deadline moves past its only timer entry, it is never discarded, and a later frame reusing the id is lost", "C11 (oracle: complete-not-delivered in the expired-then-id-reuse scenarios; correspondence with the reassembly model)"),
+ "C11b": ("C11", "a stray fragment with the id of a frame in progress, another total and an unoccupied seq: its payload is spliced into the frame", "C11 (oracle: wrong-frame-delivered / complete-not-delivered with one stray per session; correspondence)"),
+ "C12a": ("C12", "UDP over CONNECT with the inline channel and the first RPFM frame in the same segment as the end of the HTTP head (either side): the read-ahead bytes are dropped", "C12 (oracle: segmentation-dependent in the head+frames cases of h11c_connect / h11c_handshake; correspondence)"),
+ "C12b": ("C12", "a SOCKS4 upstream whose 8-byte reply arrives in more than one segment (or is truncated): missing bytes are read as zero", "C12 (oracle: segmentation-dependent / truncated-accepted on the SOCKS4 reply reader; correspondence)"),
+ "C01c": ("C01", "buffered path (useSplice off, or a TLS / QUIC side): a tunnel that ends while the relay holds undelivered bytes (write failure, or cancelled while back-pressured, e.g. by the idle timer) returns a dirty pooled buffer; the next tunnel sends those bytes ahead of its own", "C01 (oracle: bytes-of-another-connection in the cross-connection-after-failure scenarios, added for this seed; correspondence of the scripted copy_bidi events)"),
+ "C05c": ("C05", "a UDP tproxy listener (needs CAP_NET_ADMIN: cannot run in the sandbox) and one source sending more than 100 datagrams to one session while its upstream is dialled: the accept loop waits in a blocking queue send", "C05 (proof obligation only: the regenerated accept-loop table fails accept_loops_have_no_peer_wait — no-failing-input-found, the listener cannot be started here; the same defect existed in the pinned reverse UDP listener and was shown end to end and repaired: 0d45019)"),
+ "C07c": ("C07", "auth.required with a users list, and a presented password that is a proper prefix of the configured one (the empty password included; every SOCKS4 request with a valid user id)", "C07 (oracle: routed without valid credentials; correspondence with the credential model)"),
+ "C10c": ("C10", "a SOCKS5 UDP association at a direct connector, destinations given by NAME, and the same name addressed with two different ports: later datagrams go to the first port", "C10 (oracle: delivered-to-wrong-destination — two origins and by-name destinations added for this seed)"),
 }
 root = "/verif/seeded"
 for sid, (prop, needs, caught) in sorted(T.items()):
